@@ -25,6 +25,12 @@ def stft_configs(tier):
     return [(L, S, st) for L in Ls for S in range(1, L + 1) for st in stubs.ALL_STYLES]
 
 
+def gapped_configs(tier):
+    """frame shift longer than the frame: compute_full only (C02 / C14), outside C01's precondition"""
+    Ls = (2, 3, 5) if tier == "quick" else (2, 3, 4, 5, 7)
+    return [(L, S, st) for L in Ls for S in (L + 1, 2 * L + 1, 2 * L + 3) for st in stubs.ALL_STYLES]
+
+
 def chunkings_for(N, L, S, rng, ncomp_max, nsamp):
     if N <= ncomp_max:
         out = list(T.compositions(N))
